@@ -894,6 +894,26 @@ theorem C31_inflate_bound (cap : Nat) :
     rw [hg, hz, hgg, hzg]
     exact ⟨loop true avail total ht, loop false avail total ht⟩
 
+/-- **sequences on one pool**: for fetches issued one after the other on one long-lived `FetchConfig`, each fetch only contacts
+URLs accepted by the validator configured *for that fetch* — an acceptance made for an earlier fetch (another validator object,
+or the same allow-list before a host was revoked) authorises nothing later; and the code keeps no validation state between
+requests (extracted). -/
+theorem C31_sequence {σ : Type} (o : Origin σ) (cfg : Cfg) :
+    Gen.Fetch.validationStateless = true ∧
+    ∀ (steps : List SeqStep) (s : σ), ∀ p ∈ fetchSeq o cfg steps s,
+      Validated p.1.env.valid (p.2.tr.groups.map fun g => ⟨g.urls, g.redirects⟩) ∧
+      RedirectsBounded cfg.maxRedirects (p.2.tr.groups.map fun g => ⟨g.urls, g.redirects⟩) := by
+  refine ⟨by rfl, ?_⟩
+  intro steps
+  induction steps with
+  | nil => intro s p hp; simp [fetchSeq] at hp
+  | cons st rest ih =>
+    intro s p hp
+    simp only [fetchSeq, List.mem_cons] at hp
+    rcases hp with rfl | hp
+    · exact ⟨C31_validated st.env o cfg st.sched1 st.sched2 s st.url, C31_redirects st.env o cfg st.sched1 st.sched2 s st.url⟩
+    · exact ih _ p hp
+
 /-- an origin whose complete in-contract 206 bodies are the requested slices of `obj` (it may still ignore ranges, answer
 short or long, redirect, fail, lie about sizes: those answers are not in-contract) -/
 def RangeHonest {σ : Type} (o : Origin σ) (obj : Bytes) (n : Nat) : Prop :=
